@@ -421,7 +421,9 @@ class BezierPath(BooleanOperationsMixin, SampleMixin, object):
         path is not the same as the start point of the other path, a line
         will be drawn between them."""
         segs1 = self.asSegments()
-        segs2 = other.asSegments()
+        # Work on copies: the other path must not end up sharing segment
+        # objects (or its segment list) with this one.
+        segs2 = [x.clone() for x in other.asSegments()]
         if len(segs1) < 1:
             self.activeRepresentation = SegmentRepresentation(self, segs2)
             return
